@@ -12,10 +12,17 @@ use std::{cmp::Ordering, fmt};
 /// Signed wrapper of Uint128
 /// very minimalist only has bare minimum functions for
 /// basic signed arithmetic
-#[derive(Clone, Copy, Debug, PartialEq, Eq, JsonSchema)]
+#[derive(Clone, Copy, Debug, Eq, JsonSchema)]
 pub struct Integer {
     pub value: Uint128,
     pub negative: bool,
+}
+
+/// zero has two encodings (+0 and -0), both are the same number
+impl PartialEq for Integer {
+    fn eq(&self, other: &Self) -> bool {
+        self.value == other.value && (self.negative == other.negative || self.value.is_zero())
+    }
 }
 
 impl Integer {
@@ -75,12 +82,12 @@ impl Integer {
 
     #[allow(missing_docs)]
     pub fn is_negative(&self) -> bool {
-        self.negative
+        self.negative && !self.value.is_zero()
     }
 
     #[allow(missing_docs)]
     pub fn is_positive(&self) -> bool {
-        !self.negative
+        !self.is_negative()
     }
 
     #[allow(missing_docs)]
